@@ -105,8 +105,14 @@ func (t *TrafBox) ParseReadSenc(defaultIVSize byte, moofStartPos uint64) error {
 		if sgpdEntryNr != sbgpInsideOffset+1 {
 			return fmt.Errorf("sgpd entry number must be first inside = 65536 + 1")
 		}
-		sgpdEntry := sgpd.SampleGroupEntries[sgpdEntryNr-sbgpInsideOffset-1]
-		seigEntry := sgpdEntry.(*SeigSampleGroupEntry)
+		sgpdEntryIdx := sgpdEntryNr - sbgpInsideOffset - 1
+		if int(sgpdEntryIdx) >= len(sgpd.SampleGroupEntries) {
+			return fmt.Errorf("sgpd entry number %d but only %d entries", sgpdEntryNr, len(sgpd.SampleGroupEntries))
+		}
+		seigEntry, ok := sgpd.SampleGroupEntries[sgpdEntryIdx].(*SeigSampleGroupEntry)
+		if !ok {
+			return fmt.Errorf("sgpd entry is not a seig entry")
+		}
 		perSampleIVSize = seigEntry.PerSampleIVSize
 	}
 	err := senc.ParseReadBox(perSampleIVSize, t.Saiz)
